@@ -417,7 +417,7 @@ def child_run(job: dict) -> dict:
     from sympy.core.parameters import global_parameters  # pylint: disable=import-outside-toplevel
     from symplyphysics.core.symbols import id_generator  # pylint: disable=import-outside-toplevel
     from . import observe  # pylint: disable=import-outside-toplevel
-    ids = id_generator._ids  # pylint: disable=protected-access
+    ids = observe.COUNTERS  # the public next_id / last_id only
     events = []
     obs = {}
     faults = {"jump": 0, "clear_cache": 0, "create": 0, "import_before": 0, "call_before": 0}
@@ -457,7 +457,7 @@ def child_run(job: dict) -> dict:
                 faults["create"] += 1
         elif kind == "import":
             was = op["m"] in sys.modules
-            counters = dict(ids)
+            counters = ids.snapshot()
             _mod, err = observe.try_import(op["m"])
             outcome = err or "ok"
             if not was:
@@ -465,8 +465,7 @@ def child_run(job: dict) -> dict:
                 _note_first_imports(before_mods, first_import_counter, counters, faults, perturbed_before)
         elif kind == "jump":
             cur = ids.get(op["prefix"], 0)
-            if op["to"] > cur:  # forward only: backward would alias names
-                ids[op["prefix"]] = op["to"]
+            if ids.jump(op["prefix"], op["to"]):  # forward only: backward would alias names
                 faults["jump"] += 1
                 outcome = f"{cur}->{op['to']}"
         elif kind == "create":
@@ -534,7 +533,7 @@ def child_run(job: dict) -> dict:
                 faults["args_created_early"] = faults.get("args_created_early", 0) + 1
         elif kind == "observe":
             m = op["m"]
-            counters = dict(ids)
+            counters = ids.snapshot()
             dep_first = m in sys.modules
             o = observe.observe(m, with_calls=op.get("calls", True), prepared=prepared.get(m) if op.get("use_prepared") else None, conditioning=bool(op.get("conditioning")))
             _note_first_imports(before_mods, first_import_counter, counters, faults, perturbed_before)
